@@ -311,6 +311,7 @@ mod verif_bounded {
         for (name, st) in [("memory", &m as &dyn StoreOps), ("SQLite", &s as &dyn StoreOps)] {
             expect(label, scen, "g1 record after rollback: EVERY field is the one of snapshot time (B), none of the later state C", name, st.get_group(1).map(|g| format!("{g:?}")), Some(format!("{:?}", group_b())));
             expect(label, scen, "g1 relays after rollback", name, st.get_relays(1), relays("wss://b.example").into_iter().map(|r| r.to_string()).collect::<BTreeSet<_>>());
+            expect(label, scen, "g1 exporter secret of epoch 1 (OLDER than the snapshot's epoch) after rollback", name, st.get_secret(1, 1), Some([1u8; 32]));
             expect(label, scen, "g1 exporter secret of epoch 2 after rollback", name, st.get_secret(1, 2), Some([2u8; 32]));
             expect(label, scen, "g1 exporter secret of epoch 3 (written after B) after rollback", name, st.get_secret(1, 3), None);
             expect(label, scen, "g2 record untouched by the rollback of g1", name, st.get_group(2).map(|g| (g.name, g.epoch)), Some(("g2 moved on".to_string(), 5)));
@@ -564,6 +565,44 @@ mod verif_bounded {
         let s = MdkSqliteStorage::new_unencrypted(&db).expect("sqlite file, second session");
         expect(label, scen, "a later session sees what was written after the refused rollback", "SQLite", s.find_group_by_mls_group_id(&gid(2)).unwrap().map(|g| g.name), Some("written after the refused rollback".to_string()));
         expect(label, scen, "a later session sees the snapshot taken after the refused rollback", "SQLite", s.list_group_snapshots(&gid(2)).unwrap().len(), 1);
+        let _ = std::fs::remove_dir_all(&dir);
+    }
+    // C18 / C10 "out-of-range limits are refused": also for a group that holds no message yet (the limit check must not hide behind the
+    // lookup of the group's messages). Scope: an empty group, limits 0, 1, MAX, MAX + 1, offsets 0 and 5, both sort orders, both back ends.
+    #[test]
+    fn limits_are_validated_for_a_group_without_messages() {
+        let label = "sqlite_bounded.limits_are_validated_for_a_group_without_messages";
+        let (m, s) = stores();
+        m.save_group(group(1, 1)).unwrap(); s.save_group(group(1, 1)).unwrap();
+        for limit in [0usize, 1, 10000, 10001] { for off in [0usize, 5] { for so in [MessageSortOrder::CreatedAtFirst, MessageSortOrder::ProcessedAtFirst] {
+            let scen = format!("a group without messages, limit {limit}, offset {off}, {so:?}");
+            let want = if (1..=10000).contains(&limit) { Some(0usize) } else { None };
+            let p = Pagination::with_sort_order(Some(limit), Some(off), so);
+            expect(label, &scen, "messages(): Ok(number of rows) or refused", "SQLite", s.messages(&gid(1), Some(p.clone())).map(|v| v.len()).ok(), want);
+            expect(label, &scen, "messages(): Ok(number of rows) or refused", "memory", m.messages(&gid(1), Some(p)).map(|v| v.len()).ok(), want);
+        }}}
+    }
+    // C11 / C06 / C20: pruning expired snapshots leaves the connection usable and what is written afterwards durable -- whether the prune
+    // removed something or nothing. Scope: SQLite file, one group, two prunes (one removing a snapshot, one removing none), one restart.
+    #[test]
+    fn prune_leaves_no_open_transaction() {
+        let label = "sqlite_bounded.prune_leaves_no_open_transaction";
+        let dir = std::env::temp_dir().join(format!("verif-bounded-{}-{}", std::process::id(), "prune-txn"));
+        let _ = std::fs::remove_dir_all(&dir); std::fs::create_dir_all(&dir).unwrap();
+        let db = dir.join("db.sqlite");
+        let scen = "g1 takes snapshot S ; prune_expired_snapshots(u64::MAX) removes it ; prune again (nothing to remove) ; snapshot T ; a write ; restart";
+        {
+            let s = MdkSqliteStorage::new_unencrypted(&db).expect("sqlite file");
+            s.save_group(group(1, 1)).unwrap();
+            s.create_group_snapshot(&gid(1), "S").unwrap();
+            expect(label, scen, "first prune: snapshots removed", "SQLite", s.prune_expired_snapshots(u64::MAX).ok(), Some(1));
+            expect(label, scen, "second prune: snapshots removed", "SQLite", s.prune_expired_snapshots(u64::MAX).ok(), Some(0));
+            expect(label, scen, "create_group_snapshot after the prunes", "SQLite", s.create_group_snapshot(&gid(1), "T").is_ok(), true);
+            let mut g = group(1, 1); g.name = "written after the prunes".into(); s.save_group(g).unwrap();
+        }
+        let s = MdkSqliteStorage::new_unencrypted(&db).expect("sqlite file, second session");
+        expect(label, scen, "a later session sees what was written after the prunes", "SQLite", s.find_group_by_mls_group_id(&gid(1)).unwrap().map(|g| g.name), Some("written after the prunes".to_string()));
+        expect(label, scen, "a later session lists the snapshots", "SQLite", s.list_group_snapshots(&gid(1)).unwrap().into_iter().map(|x| x.0).collect::<Vec<_>>(), vec!["T".to_string()]);
         let _ = std::fs::remove_dir_all(&dir);
     }
     // C20 / C09 / C06: a rollback that the back end REFUSES (its target snapshot is gone: released or TTL-pruned by another process on
